@@ -630,7 +630,18 @@ func (g *fnGen) store(st *state, a *addr, val string, instr ssa.Instruction) {
 		}
 		if g.ct != nil && g.ct.Flags["readonly-receiver"] && len(g.fn.Params) > 0 && g.fn.Signature.Recv() != nil {
 			if _, isPtr := g.fn.Params[0].Type().Underlying().(*types.Pointer); isPtr {
-				g.oblige(st, "readonly", a.field.Name()+" <- "+g.anchor(instr.Pos(), "store"), instr.Pos(), "", Not(S("=", a.ref, g.vals[g.fn.Params[0]])), "evaluation does not write the receiver (an AST node is shared by every evaluation of it)")
+				// a store whose address is reached from the receiver through fields and pointer fields
+				// (pe.f, pe.Embedded.f, ...) writes the shared node; a store into an unrelated object of
+				// another struct type cannot be the receiver
+				goal := ""
+				if sti, ok := instr.(*ssa.Store); ok && g.reachedFromReceiver(sti.Addr) {
+					goal = "false"
+				} else if types.Identical(a.structT, deref(g.fn.Params[0].Type())) {
+					goal = Not(S("=", a.ref, g.vals[g.fn.Params[0]]))
+				}
+				if goal != "" {
+					g.oblige(st, "readonly", a.field.Name()+" <- "+g.anchor(instr.Pos(), "store"), instr.Pos(), "", goal, "evaluation does not write the receiver or what its fields point to (an AST node is shared by every evaluation of it)")
+				}
 			}
 		}
 		if _, isStruct := a.typ.Underlying().(*types.Struct); isStruct {
@@ -1868,4 +1879,38 @@ func (g *fnGen) writeGuardObligations(st *state, a *addr, instr ssa.Instruction)
 		}
 		g.oblige(st, "write-guard", wg.Struct+"."+wg.Field+" <- "+g.anchor(instr.Pos(), "store"), instr.Pos(), "", t, "write to "+wg.Struct+"."+wg.Field+" is allowed only when: "+wg.Src)
 	}
+}
+
+// reachedFromReceiver: v is the receiver, a field address of something reached from it, or a pointer loaded
+// from such a field (NaiveForm keeps the receiver in a local that is stored once at entry).
+func (g *fnGen) reachedFromReceiver(v ssa.Value) bool {
+	recv := g.fn.Params[0]
+	for depth := 0; depth < 12; depth++ {
+		switch x := v.(type) {
+		case *ssa.Parameter:
+			return x == recv
+		case *ssa.FieldAddr:
+			v = x.X
+		case *ssa.UnOp:
+			if x.Op != token.MUL {
+				return false
+			}
+			if al, ok := x.X.(*ssa.Alloc); ok {
+				// the home of a parameter: exactly one store, of the receiver
+				var stored ssa.Value
+				n := 0
+				for _, ref := range *al.Referrers() {
+					if st, ok := ref.(*ssa.Store); ok && st.Addr == al {
+						n++
+						stored = st.Val
+					}
+				}
+				return n == 1 && stored == recv
+			}
+			v = x.X
+		default:
+			return false
+		}
+	}
+	return false
 }
